@@ -226,3 +226,9 @@ A(V("c07-markfilter-not-renumbered", "C07", SUB, "            self.MarkFiltering
 A(V("c07-palette-not-renumbered", "C07", SUB, "                record.PaletteIndex = new_index", "                pass", "REMAP-IDX"))
 A(V("c20-ebdt-unsanitised", "C20", "ttLib/tables/E_B_D_T_.py", "    filename = userNameToFileName(glyphName, suffix=bitmapObject.fileExtension)", "    filename = glyphName + bitmapObject.fileExtension", "F15"))
 A(V("c08-swap-hv-metrics", "C08", INS, "        _instantiateGvarGlyph(\n            glyphname, glyf, gvar, hMetrics, vMetrics, axisLimits, optimize=optimize\n        )", "        _instantiateGvarGlyph(\n            glyphname, glyf, gvar, vMetrics, hMetrics, axisLimits, optimize=optimize\n        )", "F21"))
+A({"name": "c07-multiple-1to1", "props": ["C07"], "rule": "SUB-1to1", "expect": 1, "edits": [
+    {"file": SUB, "old": "@_add_method(\n    otTables.SingleSubst, otTables.AlternateSubst, otTables.ReverseChainSingleSubst\n)\ndef may_have_non_1to1(self):\n    return False", "new": "@_add_method(\n    otTables.SingleSubst, otTables.AlternateSubst, otTables.ReverseChainSingleSubst, otTables.MultipleSubst\n)\ndef may_have_non_1to1(self):\n    return False", "count": 1},
+    {"file": SUB, "old": "@_add_method(\n    otTables.MultipleSubst,\n    otTables.LigatureSubst,\n    otTables.ContextSubst,\n    otTables.ChainContextSubst,\n)\ndef may_have_non_1to1(self):", "new": "@_add_method(\n    otTables.LigatureSubst,\n    otTables.ContextSubst,\n    otTables.ChainContextSubst,\n)\ndef may_have_non_1to1(self):", "count": 1}]})
+A(V("c07-vvar-twin-diverged", "C07", SUB, "        used.update(s.reverseOrigGlyphMap.values())\n        advIdxes_ = used.copy()\n        retainAdvMap = s.options.retain_gids\n\n    if table.TsbMap:", "        used.update(s.reverseOrigGlyphMap.values())\n        advIdxes_ = used\n        retainAdvMap = s.options.retain_gids\n\n    if table.TsbMap:", "F22-hvar"))
+A(V("c03-ttpush-signext", ["C03", "C15"], "ttLib/tables/ttProgram.py", "                                if value >= 0x8000:", "                                if value > 0x8000:", "F5-ttpush"))
+A(V("c03-glyf-split-case", ["C03", "C19"], "ttLib/tables/_g_l_y_f.py", "                    existingGlyphFiles.add(glyphPath.lower())", "                    existingGlyphFiles.add(glyphPath)", "F25-name"))
